@@ -6,7 +6,7 @@ set -u
 ID=$1; shift
 W=/tmp/seed/$ID
 cd $W || exit 2
-git checkout -q -- . && git clean -fdq -e target && git apply /tmp/seed/${ID}_patch.diff || { echo "patch does not apply"; exit 2; }
+git reset -q && git checkout -q -- . && git clean -fdq -e target && git apply /tmp/seed/${ID}_patch.diff || { echo "patch does not apply"; exit 2; }
 echo "== suite with patch (no demo)"; cargo test --workspace --offline 2>&1 | grep -E "^test result" | awk '{p+=$4; f+=$6} END {print "passed",p,"failed",f}'
 git apply /tmp/seed/${ID}_demo.diff || { echo "demo does not apply"; exit 2; }
 echo "== demo with patch"; cargo test --offline "$@" 2>&1 | grep -E "^test result|^test .*FAILED" | head -8
